@@ -233,7 +233,7 @@ class C09(FMonitor):
             if getattr(n, "blocking", None) is True and n.stats.get("num_item_discarded", 0) != 0:
                 led.V("C09", "blocking-never-discards", "blocking %s %s reports %d discarded item(s)" % (tname(n), nid, n.stats["num_item_discarded"]),
                       node=tname(n))
-        for (t, nid, eid, ans, room) in led.canput[self.seen_cp:]:
+        for (t, nid, eid, ans, room, _g) in led.canput[self.seen_cp:]:
             e = led.edges[eid]
             if tname(e) in ("Buffer", "Fleet") and ans != (room > 0):
                 led.V("C09", "can_put-reflects-room", "%s asked %s.can_put() at %s: answer %s, free unreserved space %d"
@@ -275,9 +275,17 @@ class C09(FMonitor):
             if abs(t - now) > EPS:
                 continue
             n = led.nodes[nid]
-            answers = [(eid, ans) for (tt, nn, eid, ans, room) in led.canput if abs(tt - t) < EPS and nn == nid]
-            if not answers:
+            recs = [r for r in led.canput if abs(r[0] - t) < EPS and r[1] == nid]
+            if not recs:
                 led.V("C09", "discard-only-after-probe", "%s discarded %s at %s without asking any out-edge" % (nid, getattr(it, "id", it), t), node=tname(n))
+                continue
+            # space that was only "taken" by reservations which this very node withdrew unused in the same instant was room
+            for (tt, nn, eid, ans, room, granted) in recs:
+                own = [g for g in granted if g.node is n and g.status == "cancelled" and g.t_end is not None and abs(g.t_end - t) < EPS]
+                if not ans and room + len(own) > 0 and n.stats.get("num_item_discarded", 0) > 0:
+                    led.V("C09", "pushed-if-any-edge-has-room", "%s dropped %s at %s although out-edge %s had room: its free place(s) were only held by %d reservation(s) of %s itself that it withdrew unused in the same instant"
+                          % (nid, getattr(it, "id", it), t, eid, len(own), nid), node=tname(n), own_reservations=True)
+                    return
 
 
 FMONITORS = {"C03": [C03], "C08": [C08], "C09": [C09]}
